@@ -2693,8 +2693,9 @@ class SequenceAndSetBase(base.ConstructedAsn1Type):
         mapping = {}
 
         for idx, value in enumerate(self._componentValues):
-            # Absent fields are not in the mapping
-            if value is noValue:
+            # Absent fields are not in the mapping, nor are the
+            # placeholders that reading an absent field leaves behind
+            if value is noValue or not value.isValue:
                 continue
 
             name = self.componentType.getNameByPosition(idx)
